@@ -17,6 +17,12 @@ Round 3: (e) the SHAPES of the kernels: the rational phases of the Coq model (C1
     following the float32 phase magnitude); (f) ProbeParametric / ObjectDIP variants of the
     operators; real-valued, complex64 and non-contiguous inputs; patches wrapping around both
     axes; per-slice scatter; gradient_step energy / fixed-point identities.
+
+Round 5: (g) argument forms of the operators' inputs (harness/c16_argforms.py, kind "argforms"): dtype / container /
+    batching / layout, all identities incl. the adjoints of translation and propagation; (h) translator tie
+    (harness/c16_tie.py -> build/C16/Gen_C16.v, coq/gen_proofs/C16_GenProofs.v / C16_GenProperties.v): the operators
+    translated from the current source = the model's definitions, by theorem, on every run; cross-test of the translator
+    against the real functions (_tie_cross_test).
 """
 from __future__ import annotations
 
@@ -25,6 +31,7 @@ import math
 from fractions import Fraction
 
 from ..common import Ctx, cfloat, cnl, cq, cz
+from ..c16_argforms import case_argforms, gen_argforms
 
 LEVEL = "proof"
 
@@ -946,7 +953,7 @@ def case_variants(E, p):
 
 
 CASES = {"variants": case_variants, "translate": case_translate, "propagate": case_propagate, "adjoint": case_adjoint,
-         "pure_phase": case_pure_phase, "fproj": case_fproj, "pipeline": case_pipeline}
+         "pure_phase": case_pure_phase, "fproj": case_fproj, "pipeline": case_pipeline, "argforms": case_argforms}
 
 
 # ---------------------------------------------------------------------------------- generation
@@ -1043,6 +1050,8 @@ def _gen(ctx: Ctx):
     # ---- the library's own forward pass
     for sh, s, m in [((6, 8), 2, 2), ((5, 6), 3, 1), ((7, 5), 1, 3), ((8, 10), 4, 2)][:ctx.budget(2, 4)]:
         out.append({"kind": "pipeline", "roi": list(sh), "slices": s, "modes": m, "seed": seed()})
+    # ---- round 5: the argument forms (dtype / container / batching / layout) of the operators' inputs
+    out += gen_argforms(ctx, SHAPES_ORACLE, SHAPES_TOY)
     return out
 
 
@@ -1110,6 +1119,155 @@ def _eval_exprs(ctx, name, items):
     return vals
 
 
+def _tie_cross_test(ctx: Ctx, E):
+    """the TRANSLATOR is tested on every run: the definitions it has just generated (build/C16/Gen_C16.v) are evaluated by
+    vm_compute -- exact rational phases for the two kernel builders, integers for scatter / gather, the binary64 instance for
+    the Fourier multipliers and the detector / projection pipeline -- and compared with calling the real functions on the same
+    inputs (a few hundred array elements per family)"""
+    np, torch, pu = E.np, E.torch, E.pu
+    r = ctx.rng
+    rng = np.random.default_rng(r.randrange(1, 1 << 30))
+    flags = ["-Q", str(ctx.dir), "GenC16"]
+    gen_imp = "From QV.lib Require Import C16_TieLib.\nFrom GenC16 Require Import Gen_C16.\n"
+    bad = []
+    # ---- (1) kernel builders: total phase of the generated factors (P = Q, fq = fftfreq) vs the angle of the real arrays
+    q_exprs, q_items = [], []
+    shapes = [(4, 6), (5, 5), (7, 4), (3, 8), (6, 5)]
+    for (n1, n2) in r.sample(shapes, 3):
+        s = [round(r.uniform(-6, 6), 3), round(r.uniform(-6, 6), 3)]
+        q_exprs.append("map (fun k1 => map (fun k2 => C16K.fix64 (esum 0%%Q Qplus (gen_ramp_factors tt (fun _ _ => tt) 1%%Q (1#2)%%Q Qplus Qmult "
+                       "Qopp (fun _ : Q => tt) (fun a d k => C16K.fftfreq_q (nth a [%d; %d]%%nat 0%%nat) d k) (fun c => nth c [%s; %s] 0%%Q) k1 k2))) "
+                       "(seq 0 %d)) (seq 0 %d)" % (n1, n2, cq(_dec(s[0])), cq(_dec(s[1])), n2, n1))
+        with torch.no_grad():
+            ramp = _n(E, pu.fourier_translation_operator(torch.tensor([s], dtype=torch.float64), (n1, n2)))[0]
+        q_items.append((np.angle(ramp) / (2 * np.pi), TOL_RAMP_TURNS * (1.0 + max(abs(s[0]), abs(s[1]))),
+                        "gen_ramp_factors vs fourier_translation_operator(%s, %s)" % (s, (n1, n2))))
+    for (n1, n2) in r.sample(SHAPES_TOY[:8], 3):
+        pt = E.pt((n1, n2), 1, 2)
+        tilt = r.choice([[0.0, 0.0], [round(r.uniform(-8, 8), 2), 0.0], [0.0, round(r.uniform(-8, 8), 2)],
+                         [round(r.uniform(-8, 8), 2), round(r.uniform(-8, 8), 2)]])
+        samp = [round(r.uniform(0.2, 0.6), 3), round(r.uniform(0.2, 0.6), 3)]
+        dz = round(r.uniform(0.5, 20.0), 2)
+        energy = r.choice([60e3, 80e3, 200e3, 300e3])
+        K = _propagators(E, pt, samp, [dz], energy, tilt)[0]
+        from quantem.core.utils.utils import electron_wavelength_angstrom
+        lam_q = Fraction(float(electron_wavelength_angstrom(energy)))
+        tq = [Fraction(math.tan(float(np.float32(t)) / 1e3)) for t in tilt]
+        q_exprs.append("map (fun k1 => map (fun k2 => C16K.fix64 (esum 0%%Q Qplus (gen_kernel_factors tt (fun _ _ => tt) 1%%Q (1#2)%%Q Qplus Qmult "
+                       "Qopp (fun _ : Q => tt) (fun a d k => C16K.fftfreq_q (nth a [%d; %d]%%nat 0%%nat) d k) %s (fun a => nth a [%s; %s] false) "
+                       "(fun a => nth a [%s; %s] 0%%Q) (fun a => nth a [%s; %s] 0%%Q) %s k1 k2))) (seq 0 %d)) (seq 0 %d)"
+                       % (n1, n2, cq(lam_q), "true" if tilt[0] != 0 else "false", "true" if tilt[1] != 0 else "false",
+                          cq(tq[0]), cq(tq[1]), cq(_dec(samp[0])), cq(_dec(samp[1])), cq(_dec(dz)), n2, n1))
+        q_items.append((np.angle(K.astype(np.complex128)) / (2 * np.pi), ("rad", TOL_KERNEL_RAD0, TOL_KERNEL_REL),
+                        "gen_kernel_factors vs _compute_propagator_arrays(%s, dz=%s, %g eV, tilt %s, %s)" % (samp, dz, energy, tilt, (n1, n2))))
+    nvals = [0]
+
+    def judge_q(qv):
+        for v, (got, tl, what) in zip(qv, q_items):
+            d = _turn_diff(got, v)
+            nvals[0] += got.size
+            if d is None:
+                bad.append("shape mismatch: " + what)
+                continue
+            if isinstance(tl, tuple):
+                mag = np.array([[abs(int(w)) / FIX for w in row] for row in v]) * 2 * math.pi
+                lim = (tl[1] + tl[2] * mag) / (2 * math.pi)
+            else:
+                lim = tl
+            if not bool(np.all(d <= lim)):
+                bad.append("%s: phase differs by up to %.3g turns" % (what, float(np.max(d))))
+    # ---- (2) scatter / gather over Z (exact): integer-valued data through the real functions
+    z_exprs, z_want = [], []
+    pt = E.pt((4, 4), 1, 1)
+    CI = 1000003
+    for _ in range(4):
+        H, W, n = r.randint(2, 5), r.randint(2, 5), r.randint(1, 14)
+        idx = [r.randrange(H * W) for _ in range(n)]
+        re_, im_ = [r.randint(-50, 50) for _ in range(n)], [r.randint(-50, 50) for _ in range(n)]
+        ore, oim = [r.randint(-50, 50) for _ in range(H * W)], [r.randint(-50, 50) for _ in range(H * W)]
+        zl_ = lambda l: "[%s]%%Z" % "; ".join(cz(x) for x in l)      # noqa
+        it = torch.tensor(idx, dtype=torch.int64)
+        with torch.no_grad():
+            sb = _n(E, pu.sum_patches_base(torch.tensor(re_, dtype=torch.float64), it, (H, W))).reshape(-1)
+            sc = _n(E, pu.sum_patches(torch.tensor(np.array(re_) + 1j * np.array(im_)), it, (H, W))).reshape(-1)
+            ga = _n(E, pt.obj_model._get_obj_patches(torch.tensor((np.array(ore) + 1j * np.array(oim)).reshape(1, H, W)), it))[0]
+        z_exprs.append("map (gen_sum_patches_base 0%%Z Z.add Z.mul (%s) %s) (seq 0 %d)" % (cnl(idx), zl_(re_), H * W))
+        z_want.append([int(round(x)) for x in sb])
+        z_exprs.append("map (gen_sum_patches_complex 0%%Z Z.add Z.mul %d%%Z (%s) %s %s) (seq 0 %d)" % (CI, cnl(idx), zl_(re_), zl_(im_), H * W))
+        z_want.append([int(round(x.real)) + CI * int(round(x.imag)) for x in sc])
+        z_exprs.append("gen_get_obj_patches 0%%Z Z.add Z.mul %d%%Z (fun n => nth n %s 0%%Z) (fun n => nth n %s 0%%Z) (%s)"
+                       % (CI, zl_(ore), zl_(oim), cnl(idx)))
+        z_want.append([int(round(x.real)) + CI * int(round(x.imag)) for x in ga])
+    def judge_z(zv):
+        for e_, v, w in zip(z_exprs, zv, z_want):
+            nvals[0] += len(w)
+            if [int(x) for x in v] != w:
+                bad.append("%s evaluates to %s, the real function gives %s" % (e_[:60], v, w))
+    # ---- (3) Fourier multipliers, detector, projection on the binary64 instance vs the real functions
+    f_exprs, f_tol = [], []
+    GA = ("cf0 cf1 cfadd cfmul cfsub cfconj (gN1 g) (C16F.T1 g) (fNinv (gN1 g)) (gN2 g) (C16F.T2 g) (fNinv (gN2 g)) (C16F.frs g) (C16F.frsi g) "
+          "C16F.fph C16F.fisq C16F.feps")
+    for (n1, n2), M in zip(r.sample([(4, 4), (5, 4), (3, 5), (4, 6), (5, 5)], 3), (1, 2, 3)):
+        g = _grid(E, n1, n2)
+        pt = E.pt((n1, n2), M, 1)
+        x = _c(E, rng, (n1, n2))
+        s = np.array([[round(r.uniform(-3, 3), 3), round(r.uniform(-3, 3), 3)]])
+        a = rng.uniform(0.1, 2.0, size=(1, n1, n2))
+        psi = _c(E, rng, (M, 1, n1, n2))
+        with torch.no_grad():
+            ramp = _n(E, pu.fourier_translation_operator(torch.tensor(s), (n1, n2)))[0]
+            sh_ = _n(E, pu.fourier_shift_expand(torch.tensor(x), torch.tensor(s)))[0]
+            pr1 = _n(E, pt._propagate_array(torch.tensor(x), torch.tensor(ramp)))
+            pr2 = _n(E, pt.obj_model._propagate_array(torch.tensor(x), torch.tensor(ramp)))
+            P1_t = pt.fourier_projection(torch.tensor(a), torch.tensor(psi))
+            P1 = _n(E, P1_t)
+            I = _n(E, pt.detector_model.forward(torch.tensor(psi)))
+            I2 = _n(E, pt.estimate_intensities(torch.tensor(psi)))
+            G = _n(E, pt.gradient_step(torch.tensor(a), torch.tensor(psi)))
+        ps = "[%s]" % "; ".join(_sig2(psi[m, 0]) for m in range(M))
+        for nm, want in (("gen_shift_expand", sh_), ("gen_propagate_base", pr1), ("gen_propagate_obj", pr2)):
+            f_exprs.append("let g := %s in C16F.cmp2 g (%s %s %s %s) %s" % (g, nm, GA, _sig2(ramp), _sig2(x), _l2(want)))
+            f_tol.append((nm, 1e-12))
+        f_exprs.append("let g := %s in C16F.cmp2 g (gen_detector_forward %s %s) %s" % (g, GA, ps, _l2(I[0])))
+        f_tol.append(("gen_detector_forward", 1e-12))
+        f_exprs.append("let g := %s in C16F.cmp2 g (gen_estimate_intensities %s %s) %s" % (g, GA, ps, _l2(I2[0])))
+        f_tol.append(("gen_estimate_intensities", 1e-12))
+        if M == 1:
+            f_exprs.append("let g := %s in C16F.cmp2 g (gen_fproj_single %s (rsig2 %s) %s) %s" % (g, GA, _r2(a[0]), _sig2(psi[0, 0]), _l2(P1[0, 0])))
+            f_tol.append(("gen_fproj_single", 1e-11))
+            f_exprs.append("let g := %s in C16F.cmp2 g (gen_gradient_step %s (rsig2 %s) %s) %s" % (g, GA, _r2(a[0]), _sig2(psi[0, 0]), _l2(G[0, 0])))
+            f_tol.append(("gen_gradient_step", 1e-11))
+        else:
+            ws = "[%s]" % "; ".join(_l2(P1[m, 0]) for m in range(M))
+            f_exprs.append("let g := %s in C16F.cmp2s g (gen_fproj_mixed %s (rsig2 %s) %s) %s" % (g, GA, _r2(a[0]), ps, ws))
+            f_tol.append(("gen_fproj_mixed", 1e-11))
+    def judge_f(fv):
+        for (nm, tol), v in zip(f_tol, fv):
+            for err, ref in _pairs(v):
+                nvals[0] += int(n1 * n2)
+                if not (err <= tol * max(ref, 1e-300)):
+                    bad.append("%s (binary64 instance) differs from the real function: max |gen - impl| = %.3g, max |impl| = %.3g" % (nm, err, ref))
+
+    # the three evaluations are independent coqc runs: concurrently
+    from concurrent.futures import ThreadPoolExecutor
+    with ThreadPoolExecutor(max_workers=3) as ex:
+        fq_ = ex.submit(ctx.coq_eval, "tie_phase", PREK + gen_imp, q_exprs, 3, 600, flags)
+        fz_ = ex.submit(ctx.coq_eval, "tie_scatter", PRE + gen_imp, z_exprs, 12, 600, flags)
+        ff_ = ex.submit(ctx.coq_eval, "tie_float", PRE + gen_imp, f_exprs, 8, 600, flags)
+        judge_q(fq_.result())
+        judge_z(fz_.result())
+        judge_f(ff_.result())
+    nval = nvals[0]
+    ctx.dist("tie/cross-test-expressions", len(q_exprs) + len(z_exprs) + len(f_exprs))
+    ctx.dist("tie/cross-test-values", nval)
+    ctx.cov["translator_tie"]["cross_test"] = {"expressions": len(q_exprs) + len(z_exprs) + len(f_exprs), "values": nval, "mismatches": len(bad)}
+    for b in bad:
+        ctx.cov["disagreements_checked"] += 1
+        ctx.violation("tie-translator-cross-test", "the definition translated from the source does not compute what the source computes "
+                      "(translator bug or an unmodelled construct): " + b, {"what": b}, found_input=False)
+    ctx.log("translator cross-test: %d expressions, %d values, %d mismatches" % (len(q_exprs) + len(z_exprs) + len(f_exprs), nval, len(bad)))
+
+
 def run(ctx: Ctx):
     for rel, names in [
         ("diffractive_imaging/ptycho_utils.py", ["fourier_shift_expand", "fourier_translation_operator", "sum_patches_base", "sum_patches"]),
@@ -1134,7 +1292,11 @@ def run(ctx: Ctx):
         "(complex128 / complex64 / real float64) and layout (contiguous / strided view), patches forced to wrap around both "
         "axes, per-slice scatter, ProbeParametric / ObjectDIP variants, and for translate / propagate cases the exact rational "
         "phases of the model's kernel shapes (C16K.ramp_phases_fix / fresnel_phases_fix) against the angle of the arrays "
-        "the code builds, modulo one turn")
+        "the code builds, modulo one turn; round 5: ARGUMENT FORMS (kind argforms, harness/c16_argforms.py): dtype (integer / float32 / "
+        "float64 shift vectors, thicknesses, indices, amplitudes), container (list / tuple / numpy / torch), batching (unbatched / stack / "
+        "one shift per item / modes x batch) and layout (contiguous / strided / Fortran) of every operator's inputs, with all identities of "
+        "the text incl. the adjoints of translation and propagation; forms the unchanged operators reject (Python lists as shift vectors) "
+        "are not generated; plus, before the cases, the translator tie (harness/c16_tie.py) and its cross-test")
     ctx.assumptions += [
         "numpy.fft / torch.fft compute the DFT; the twiddle table handed to the PrimFloat instance is numpy.exp",
         "theorems are algebra over an abstract commutative ring with exact roots of unity; agreement of the float "
@@ -1155,8 +1317,21 @@ def run(ctx: Ctx):
     ctx.cov["trusted_base"] += ["Coq 8.16.1 kernel + vm_compute", "lib/DFT_Float.v binary64 instance (PrimFloat primitives)",
                                 "numpy reference reductions in harness/props/C16.py", "harness/toy_ptycho.py (builds the real objects)"]
     ctx.proofs_or_violation()
+    tie_ok = False
+    try:  # round 5: the operators' source (kernel builders, Fourier multipliers, detector / projection pipeline, scatter / gather),
+        # translated from the CURRENT source, = the model's definitions for all inputs, by theorem (coq/gen_proofs/C16_Gen*.v)
+        from ..c16_tie import run_tie
+        tie_ok = run_tie(ctx)
+    except Exception as e:  # noqa  (fail closed)
+        ctx.broken_obligation = "; ".join(filter(None, [ctx.broken_obligation, "translator tie could not run: %r" % (e,)]))
 
     E = Env()
+    if tie_ok:
+        try:
+            _tie_cross_test(ctx, E)
+        except RuntimeError as e:
+            ctx.violation("tie-cross-test-evaluation", "the translated definitions could not be evaluated: %s" % str(e)[-600:], {},
+                          found_input=False)
     cases = []
     from ..common import VERIF
     for f in sorted((VERIF / "corpus" / "C16").glob("*.json")):          # regression cases always run first
@@ -1180,6 +1355,20 @@ def run(ctx: Ctx):
         dk = (case["kind"], shape, case.get("slices"), case.get("modes"), case.get("amp_kind"), case.get("psi_kind"),
               case.get("index_mode"), case.get("backend"), tuple(case.get("tilt", ())) != (0.0, 0.0), bool(case.get("coq")),
               case.get("dtype"), case.get("layout"), case.get("wrap_both"), case.get("probe_class"), case.get("obj_type"))
+        if case["kind"] == "argforms":
+            dk = ("argforms", shape) + tuple(sorted((k, str(v)) for k, v in case.items()
+                                                    if k.endswith(("_dtype", "_form", "_layout", "_shape")) or k in ("op", "backend", "form")))
+            ctx.dist("argform/%s" % case["op"])
+            if case["op"] == "translate":
+                ctx.dist("argform/shift-vector-dtype/%s-%s" % (case["backend"], case["pos_dtype"]))
+                ctx.dist("argform/array-dtype/%s" % case["arr_dtype"])
+                ctx.dist("argform/call-form/%s" % case["form"])
+                if case["pos_dtype"].startswith("int"):
+                    ctx.dist("argform/shift-vector-integer-dtype")
+            elif case["op"] == "propagate":
+                ctx.dist("argform/thickness-form/%s" % case["thick_form"])
+            elif case["op"] == "scatter":
+                ctx.dist("argform/index-dtype/%s" % case["idx_dtype"])
         ctx.count(dk, nontrivial=True)
         ctx.dist("kind/" + case["kind"])
         if case.get("dtype") == "c64":
@@ -1242,7 +1431,14 @@ def replay(ctx: Ctx, path):
         print("replay file has no case (broken obligation?):", d.get("what"))
         ok = ctx.require_proofs()
         print("proofs:", "ok" if ok else ctx._proof_problems)
-        return 0 if ok else 1
+        try:
+            from ..c16_tie import run_tie
+            ok2 = run_tie(ctx)
+        except Exception as e:  # noqa
+            print("translator tie could not run: %r" % (e,))
+            ok2 = False
+        print("translator tie:", "holds" if ok2 else ctx.cov.get("translator_tie", {}).get("problems"))
+        return 0 if ok and ok2 else 1
     E = Env()
     case = dict(case)
     res = CASES[case["kind"]](E, case)
